@@ -2,10 +2,11 @@
    and every OnLogon logged while ONE message is processed belongs to a message that passed the BeginString, CompID,
    SendingTime (unless the state in which it is processed is the resend state) and validation checks.
    Closure over all handlers (same syntax-directed scheme as FrameProofs.v, sections L1-L9 cloned), then the lift to steps
-   and traces.  The unconditional trace statement is FALSE on the model (events that drain buffered frames after a
-   disconnect process messages in states the observation before/after the event does not show: `_refuted` examples at the
-   end); what is proved is (a) the full gate on every event that cannot drain and (b) the gate without the SendingTime
-   clause on every event of every trace. *)
+   and traces.  An event that drains TWO OR MORE buffered frames at a disconnect handles them in changing states (in session
+   -> resend -> ...) that the observation before/after the event does not show; c06_scan (Spec.v) therefore waives the
+   SendingTime clause on such events (negb no_drain).  Proved: (a) the full gate on every event that drains at most ONE
+   frame (that frame is handled in the state before the event), (b) the gate without the SendingTime clause on every event,
+   and from the two: clauses 601 / 604 of c06_check never fail on any trace of the model (c06_gate_never_fails). *)
 From Coq Require Import String.
 From Coq Require Import ZArith List Bool Lia.
 From QF Require Import Base.Bytes Session.Types Session.Model Session.Spec Session.C01Proofs Session.LocalProofs
@@ -484,52 +485,92 @@ Proof. intros st s m s1 next E. eapply k_state_fix_msg_in; [exact E | apply k_re
 Lemma set_state_st dr s next : s_st (set_state_with dr s next) = next.
 Proof. unfold set_state_with. destruct (negb (is_connected next)); reflexivity. Qed.
 
-(* ---------- (a) events that cannot drain ---------- *)
-Lemma drain_empty s : s_in_buf s = [] -> drain s = s.
+(* ---------- (a) events that drain at most one frame ---------- *)
+(* what the disconnect itself logs once the buffered frames are handled: notifications only *)
+Lemma disconnect_now_cbs s0 :
+  exists new, s_cbs (disconnect_now s0) = new ++ s_cbs s0 /\ forallb gt_harmless new = true.
 Proof.
-  intros H. unfold drain. rewrite H. cbn [length drain_message_in]. rewrite H. destruct (negb (s_in_open s)); reflexivity.
-Qed.
-
-Lemma hd_cbs_nodrain s : s_in_buf s = [] ->
-  exists new, s_cbs (handle_disconnect_state drain s) = new ++ s_cbs s /\ forallb gt_harmless new = true.
-Proof.
-  intros Hb. unfold handle_disconnect_state.
-  match goal with |- context [drain ?x] => set (s3 := x) end.
-  assert (H3 : s_in_buf s3 = []).
-  { subst s3. repeat match goal with |- context [if ?b then _ else _] => destruct b end; exact Hb. }
-  rewrite (drain_empty s3 H3). cbn [upd_chan s_cbs]. subst s3. clear H3.
-  match goal with |- context [if ?b then log_cb s CbOnLogout else s] => destruct b end;
+  unfold disconnect_now. cbn [upd_chan s_cbs].
+  match goal with |- context [if ?b then log_cb s0 CbOnLogout else s0] => destruct b end;
     match goal with |- context [if c_reset_on_disconnect ?x then _ else _] => destruct (c_reset_on_disconnect x) end;
     match goal with |- context [if s_out_open ?x then _ else _] => destruct (s_out_open x) end;
     first [ exists [CbStoreReset; CbOnLogout]; split; reflexivity | exists [CbOnLogout]; split; reflexivity
           | exists [CbStoreReset]; split; reflexivity | exists []; split; reflexivity ].
 Qed.
 
-Lemma set_state_nodrain s next c R : (is_connected next = true \/ s_in_buf s = []) ->
-  Ext c R (s_cbs s) (s_cbs (set_state s next)).
+(* handleDisconnectState / setState extend the log by a good block whenever the drain does *)
+Lemma hd_ext dr s c R : Ext c R (s_cbs s) (s_cbs (dr s)) -> Ext c R (s_cbs s) (s_cbs (handle_disconnect_state dr s)).
 Proof.
-  intros H. unfold set_state, set_state_with.
-  destruct (is_connected next) eqn:En; cbn [negb]; [apply ext_refl|].
-  destruct H as [H|H]; [discriminate|].
+  intros H. rewrite hd_unfold. destruct (is_connected (s_st s) && negb (is_connected (s_st (dr s)))); [exact H|].
+  eapply ext_trans; [exact H|]. destruct (disconnect_now_cbs (dr s)) as (new & E & Hh).
+  exists new. split; [exact E | apply newok_harmless; exact Hh].
+Qed.
+
+Lemma set_state_with_ext dr s next c R : Ext c R (s_cbs s) (s_cbs (dr s)) -> Ext c R (s_cbs s) (s_cbs (set_state_with dr s next)).
+Proof.
+  intros H. unfold set_state_with. destruct (negb (is_connected next)); [|apply ext_refl].
   destruct (is_connected (s_st s)).
-  - destruct (hd_cbs_nodrain s H) as (new & E & Hh).
-    exists new. split; [|apply newok_harmless; exact Hh].
-    rewrite <- E. destruct (s_pending_stop (handle_disconnect_state drain s)); reflexivity.
+  - pose proof (hd_ext dr s c R H) as H1. destruct (s_pending_stop (handle_disconnect_state dr s)); exact H1.
   - destruct (s_pending_stop s); apply ext_refl.
 Qed.
 
-(* after a handler (closure K, frame Same): the state change adds only notifications when nothing can be drained *)
+(* a drain of at most ONE buffered frame: the frame is handled in the state the session is still in *)
+Lemma drain_fuel_nil f s : s_in_buf s = [] -> drain_message_in f s = s.
+Proof. intros H. destruct f; cbn [drain_message_in]; [reflexivity|]. destruct (negb (s_in_open s)); [reflexivity|]. rewrite H. reflexivity. Qed.
+
+Lemma set_state_with_buf dr s next : dr s = s -> s_in_buf s = [] -> s_in_buf (set_state_with dr s next) = [].
+Proof.
+  intros Hdr Hb. unfold set_state_with. destruct (negb (is_connected next)); [|exact Hb].
+  destruct (is_connected (s_st s)) eqn:Ec.
+  - rewrite hd_unfold, Hdr, Ec. cbn [negb andb]. destruct (s_pending_stop (disconnect_now s)); reflexivity.
+  - destruct (s_pending_stop s); exact Hb.
+Qed.
+
+Lemma incoming_with_one dr s m : (forall x, s_in_buf x = [] -> dr x = x) -> s_in_buf s = [] ->
+  Ext (s_cfg s) (gt_rs (s_st s)) (s_cbs s) (s_cbs (incoming_with dr s m)) /\ s_in_buf (incoming_with dr s m) = [].
+Proof.
+  intros Hdr Hb. unfold incoming_with. destruct (negb (is_connected (s_st s))); [split; [apply ext_refl | exact Hb]|].
+  destruct m as [mm|]; [|split; [apply ext_refl | exact Hb]].
+  destruct (state_fix_msg_in (s_st s) s mm) as [s1 next] eqn:E.
+  destruct (gate_one_message _ _ _ _ _ E) as (_ & _ & HK).
+  destruct (fr_state_fix_msg_in s _ _ _ _ _ E (same_refl s)) as (_ & _ & Hbuf & _).
+  assert (Hb1 : s_in_buf s1 = []) by (rewrite Hbuf; exact Hb).
+  pose proof (Hdr s1 Hb1) as Hd1. split.
+  - eapply ext_trans; [exact HK|]. apply set_state_with_ext. rewrite Hd1. apply ext_refl.
+  - apply set_state_with_buf; assumption.
+Qed.
+
+Lemma drain_S f s : drain_message_in (S f) s =
+  if negb (s_in_open s) then s else
+  match s_in_buf s with
+  | [] => s
+  | m :: r => drain_message_in f (incoming_with (drain_message_in f) (upd_chan s (s_out_open s) (s_in_open s) r (s_closed s)) m)
+  end.
+Proof. reflexivity. Qed.
+
+Lemma drain_one_ext s : (length (s_in_buf s) <= 1)%nat -> Ext (s_cfg s) (gt_rs (s_st s)) (s_cbs s) (s_cbs (drain s)).
+Proof.
+  intros Hl. destruct (s_in_buf s) as [|m [|m' r]] eqn:Eb; [rewrite (drain_nil s Eb); apply ext_refl | | cbn in Hl; lia].
+  unfold drain. rewrite Eb. cbn [length]. rewrite drain_S. destruct (negb (s_in_open s)); [apply ext_refl|]. rewrite Eb.
+  set (s0 := upd_chan s (s_out_open s) (s_in_open s) [] (s_closed s)).
+  destruct (incoming_with_one (drain_message_in 1) s0 m (fun x Hx => drain_fuel_nil 1 x Hx) eq_refl) as [E1 E2].
+  rewrite (drain_fuel_nil 1 _ E2). exact E1.
+Qed.
+
+(* after a handler (closure K, frame Same): the state change adds the callbacks of at most one drained frame, handled in
+   the same state, and notifications *)
 Lemma set_state_after s s1 next : K s s1 -> Same s s1 ->
-  (is_connected (s_st (set_state s1 next)) = true \/ s_in_buf s = []) ->
+  (is_connected (s_st (set_state s1 next)) = true \/ (length (s_in_buf s) <= 1)%nat) ->
   Ext (s_cfg s) (gt_rs (s_st s)) (s_cbs s) (s_cbs (set_state s1 next)).
 Proof.
-  intros (_ & _ & HK) (_ & _ & Hbuf & _) H.
-  eapply ext_trans; [exact HK|]. apply set_state_nodrain.
-  unfold set_state in H. rewrite set_state_st in H. rewrite Hbuf. exact H.
+  intros (K1 & K2 & HK) (_ & _ & Hbuf & _) H.
+  eapply ext_trans; [exact HK|]. unfold set_state in *. rewrite set_state_st in H. destruct H as [H|H].
+  - unfold set_state_with. rewrite H. apply ext_refl.
+  - apply set_state_with_ext. rewrite <- K1, <- K2. apply drain_one_ext. rewrite Hbuf. exact H.
 Qed.
 
 Lemma incoming_nodrain s m :
-  (is_connected (s_st (incoming s m)) = true \/ s_in_buf s = []) ->
+  (is_connected (s_st (incoming s m)) = true \/ (length (s_in_buf s) <= 1)%nat) ->
   Ext (s_cfg s) (gt_rs (s_st s)) (s_cbs s) (s_cbs (incoming s m)).
 Proof.
   unfold incoming, incoming_with. destruct (negb (is_connected (s_st s))); [intros _; apply ext_refl|].
@@ -538,7 +579,8 @@ Proof.
   apply set_state_after; [eapply gate_one_message; exact E | eapply fr_state_fix_msg_in; [exact E | apply same_refl] | exact H].
 Qed.
 
-Definition gt_quota (e : event) : nat := match e with EDeliver => 1%nat | _ => 0%nat end.
+(* how many frames may be buffered before the event: one may be drained; EDeliver takes one out first *)
+Definition gt_quota (e : event) : nat := match e with EDeliver => 2%nat | _ => 1%nat end.
 
 Lemma step_event_nodrain : forall s e,
   (is_connected (s_st (step_event s e)) = true \/ (length (s_in_buf s) <= gt_quota e)%nat) ->
@@ -546,35 +588,32 @@ Lemma step_event_nodrain : forall s e,
 Proof.
   intros s e H.
   assert (Hk : forall x, K s x -> Ext (s_cfg s) (gt_rs (s_st s)) (s_cbs s) (s_cbs x)) by (intros x (_ & _ & X); exact X).
-  assert (Hnil : forall l : list (option minput), (length l <= 0)%nat -> l = []) by (intros [|a l] Hl; [reflexivity | cbn in Hl; lia]).
   destruct e; cbn [step_event gt_quota] in *.
   - (* connect *) unfold connect in *. destruct (is_connected (s_st s)); [apply ext_refl|].
     match goal with |- context [set_sent_reset ?x false] => set (c0 := set_sent_reset x false) in * end.
     assert (Hc0 : K s c0) by (split; [reflexivity|]; split; [reflexivity|]; apply ext_refl).
     assert (Hfin : forall x, K s x -> Ext (s_cfg s) (gt_rs (s_st s)) (s_cbs s) (s_cbs (set_state x SLogon))).
-    { intros x Hx. eapply ext_trans; [apply Hk; exact Hx|]. apply set_state_nodrain. left; reflexivity. }
+    { intros x Hx. eapply ext_trans; [apply Hk; exact Hx|]. unfold set_state, set_state_with. apply ext_refl. }
     destruct (negb (initiator c0)); apply Hfin; [exact Hc0|]. k_go.
   - (* arrive *) destruct (_ && _); apply ext_refl.
   - (* deliver *) destruct (negb (s_in_open s)); [apply ext_refl|]. destruct (s_in_buf s) as [|m0 r] eqn:Eb; [apply ext_refl|].
     set (c1 := upd_chan s (s_out_open s) (s_in_open s) r (s_closed s)) in *.
     change (Ext (s_cfg c1) (gt_rs (s_st c1)) (s_cbs c1) (s_cbs (incoming c1 m0))).
     apply incoming_nodrain. destruct H as [H|H]; [left; exact H|]. right. cbn [length] in H.
-    change (s_in_buf c1) with r. apply Hnil. lia.
-  - (* incoming *) apply incoming_nodrain. destruct H as [H|H]; [left; exact H | right; apply Hnil; exact H].
-  - (* garbage *) apply incoming_nodrain. destruct H as [H|H]; [left; exact H | right; apply Hnil; exact H].
+    change (s_in_buf c1) with r. lia.
+  - (* incoming *) apply incoming_nodrain. exact H.
+  - (* garbage *) apply incoming_nodrain. exact H.
   - (* inclosed *) destruct (is_connected (s_st s)); [|apply ext_refl].
-    apply set_state_after; [apply k_refl | apply same_refl|]. destruct H as [H|H]; [left; exact H | right; apply Hnil; exact H].
+    apply set_state_after; [apply k_refl | apply same_refl | exact H].
   - (* timeout *) destruct (state_timeout (s_st s) s e) as [s1 next] eqn:E.
-    apply set_state_after; [eapply k_state_timeout; [exact E | apply k_refl] | eapply fr_state_timeout; [exact E | apply same_refl] |].
-    destruct H as [H|H]; [left; exact H | right; apply Hnil; exact H].
+    apply set_state_after; [eapply k_state_timeout; [exact E | apply k_refl] | eapply fr_state_timeout; [exact E | apply same_refl] | exact H].
   - (* app send *) apply Hk. k_go.
   - (* flush *) apply Hk. k_go.
   - (* stop *)
     set (c0 := upd_flags s (s_sent_reset s) (s_hb s) true (s_stopped s)) in *.
     destruct (state_stop (s_st c0) c0) as [s1 next] eqn:E.
     change (Ext (s_cfg c0) (gt_rs (s_st c0)) (s_cbs c0) (s_cbs (set_state s1 next))).
-    apply set_state_after; [eapply k_state_stop; [exact E | apply k_refl] | eapply fr_state_stop; [exact E | apply same_refl] |].
-    destruct H as [H|H]; [left; exact H | right; apply Hnil; exact H].
+    apply set_state_after; [eapply k_state_stop; [exact E | apply k_refl] | eapply fr_state_stop; [exact E | apply same_refl] | exact H].
   - (* reset time *) apply Hk. k_go.
 Qed.
 
@@ -599,15 +638,21 @@ Proof.
   eapply newok_weaken; [|exact N]. intros _; reflexivity.
 Qed.
 
-Lemma hd_w dr s : (forall x, W x (dr x)) -> W s (handle_disconnect_state dr s).
+Lemma disconnect_now_w s : W s (disconnect_now s).
 Proof.
-  intros Hdr. unfold handle_disconnect_state.
-  match goal with |- W s (upd_chan (dr ?x) _ _ _ _) => set (s3 := x) end.
+  unfold disconnect_now.
+  match goal with |- W s (upd_chan ?x _ _ _ _) => set (s3 := x) end.
   assert (H3 : W s s3).
   { subst s3.
     match goal with |- W s (if ?b then upd_chan ?y _ _ _ _ else _) =>
       assert (Hy : K s y) by k_go; apply k_w in Hy; destruct b; exact Hy end. }
-  eapply w_trans; [exact H3|]. eapply w_trans; [apply Hdr|]. split; [reflexivity | apply ext_refl].
+  exact H3.
+Qed.
+
+Lemma hd_w dr s : (forall x, W x (dr x)) -> W s (handle_disconnect_state dr s).
+Proof.
+  intros Hdr. rewrite hd_unfold. destruct (is_connected (s_st s) && negb (is_connected (s_st (dr s)))); [apply Hdr|].
+  eapply w_trans; [apply Hdr | apply disconnect_now_w].
 Qed.
 
 Lemma set_state_w dr s next : (forall x, W x (dr x)) -> W s (set_state_with dr s next).
@@ -747,11 +792,7 @@ Proof. induction st; cbn; auto. Qed.
 Lemma gt_rs_shape st : gt_rs st = true -> sh_is_resend (shape_of st) = true.
 Proof. destruct st; cbn; intros H; try discriminate; reflexivity. Qed.
 
-(* an event that cannot drain buffered frames after a disconnect: the session is still connected afterwards, or nothing
-   was buffered before it (one frame for EDeliver, which takes it out first) *)
-Definition no_drain (e : event) (prev o : obs) : bool :=
-  sh_connected (ob_st o) || (ob_inbuf prev <=? match e with EDeliver => 1 | _ => 0 end).
-
+(* Spec.no_drain in terms of the model: the event drains at most one frame *)
 Lemma no_drain_step s e : no_drain e (obs_of s) (obs_of (step s e)) = true ->
   is_connected (s_st (step s e)) = true \/ (length (s_in_buf s) <= gt_quota e)%nat.
 Proof.
@@ -759,70 +800,41 @@ Proof.
   apply orb_true_iff in H as [H|H]; [left; exact H | right]. apply Z.leb_le in H. destruct e; cbn [gt_quota]; lia.
 Qed.
 
-Lemma c06_event_nodrain_ok : forall i s e, no_drain e (obs_of s) (obs_of (step s e)) = true ->
+(* one event of a model trace, ANY event: clauses 601 / 604 hold.  If the event drains at most one frame, everything is
+   handled in the state before it (step_nodrain); otherwise c06_scan demands the clock-free gate only (step_gate_noclock). *)
+Lemma c06_event_gate_ok : forall i s e,
   free_of [601; 604] (c06_event (s_cfg s) i (obs_of s) e (obs_of (step s e))) = true.
 Proof.
-  intros i s e Hnd. pose proof (step_nodrain s e (no_drain_step s e Hnd)) as N.
-  unfold c06_event. cbn [c06_scan].
+  intros i s e. unfold c06_event. cbn [c06_scan].
   change (ob_cbs (obs_of (step s e))) with (rev (s_cbs (step s e))).
-  change (ob_st (obs_of s)) with (shape_of (s_st s)).
-  destruct (newok_gate _ _ (sh_is_resend (shape_of (s_st s)) || sh_is_resend (ob_st (obs_of (step s e)))) _ N) as [G1 G2].
-  { intros HR. rewrite (gt_rs_shape _ HR). reflexivity. }
-  rewrite G1, G2. cbn [app]. gate_free_rest.
+  destruct (no_drain e (obs_of s) (obs_of (step s e))) eqn:Hnd.
+  - pose proof (step_nodrain s e (no_drain_step s e Hnd)) as N.
+    match goal with |- context [c06_gate_cbs _ ?x _] => set (ctx := x) end.
+    destruct (newok_gate _ _ ctx _ N) as [G1 G2].
+    { intros HR. subst ctx. change (ob_st (obs_of s)) with (shape_of (s_st s)). rewrite (gt_rs_shape _ HR). reflexivity. }
+    rewrite G1, G2. cbn [app]. gate_free_rest.
+  - match goal with |- context [c06_gate_cbs _ ?x _] => set (ctx := x) end.
+    assert (Hctx : ctx = true) by (subst ctx; cbn [negb]; apply orb_true_r).
+    destruct (newok_gate _ _ ctx _ (step_gate_noclock s e) (fun _ => Hctx)) as [G1 G2].
+    rewrite G1, G2. cbn [app]. gate_free_rest.
 Qed.
 
-(* the predicate restricted to the events that cannot drain; on those events it is c06_check's own contribution *)
-Fixpoint c06_scan_nd (c : cfg) (i : nat) (prev : obs) (tr : list (event * obs)) : list failure :=
-  match tr with
-  | [] => []
-  | (e, o) :: r => (if no_drain e prev o then c06_event c i prev e o else []) ++ c06_scan_nd c (S i) o r
-  end.
-Definition c06_check_nd (c : cfg) (tr : list (event * obs)) : list failure := c06_scan_nd c O (init_obs c) tr.
-
-Fixpoint all_no_drain (prev : obs) (tr : list (event * obs)) : bool :=
-  match tr with
-  | [] => true
-  | (e, o) :: r => no_drain e prev o && all_no_drain o r
-  end.
-
-Lemma c06_scan_nd_eq : forall tr c i prev, all_no_drain prev tr = true -> c06_scan_nd c i prev tr = c06_scan c i prev tr.
+Lemma c06_scan_gate_ok : forall es s i,
+  free_of [601; 604] (c06_scan (s_cfg s) i (obs_of s) (combine es (map obs_of (run_trace es s)))) = true.
 Proof.
-  induction tr as [|[e o] r IH]; intros c i prev H; [reflexivity|].
-  cbn [all_no_drain] in H. apply andb_true_iff in H as [H1 H2].
-  rewrite c06_scan_cons. cbn [c06_scan_nd]. rewrite H1, (IH c (S i) o H2). reflexivity.
+  induction es as [|e r IH]; intros s i; cbn [run_trace map combine]; [reflexivity|].
+  rewrite c06_scan_cons, free_of_app. apply andb_true_iff; split; [apply c06_event_gate_ok|].
+  rewrite <- (step_cfg (s_cfg s) s e eq_refl). apply IH.
 Qed.
 
-Lemma c06_scan_nd_incl : forall tr c i prev x, In x (c06_scan_nd c i prev tr) -> In x (c06_scan c i prev tr).
-Proof.
-  induction tr as [|[e o] r IH]; intros c i prev x H; [exact H|].
-  rewrite c06_scan_cons. cbn [c06_scan_nd] in H. apply in_or_app. apply in_app_or in H as [H|H].
-  - destruct (no_drain e prev o); [left; exact H | destruct H].
-  - right. apply IH; exact H.
-Qed.
-
-Lemma c06_scan_nd_ok : forall es s i,
-  free_of [601; 604] (c06_scan_nd (s_cfg s) i (obs_of s) (combine es (map obs_of (run_trace es s)))) = true.
-Proof.
-  induction es as [|e r IH]; intros s i; cbn [run_trace map combine c06_scan_nd]; [reflexivity|].
-  rewrite free_of_app. apply andb_true_iff; split.
-  - destruct (no_drain e (obs_of s) (obs_of (step s e))) eqn:Hnd; [|reflexivity]. apply c06_event_nodrain_ok; exact Hnd.
-  - rewrite <- (step_cfg (s_cfg s) s e eq_refl). apply IH.
-Qed.
-
-(* C06, trace level (a): on every trace, clauses 601 and 604 never fail on an event that cannot drain *)
-Lemma c06_gate_never_fails_without_drain : forall c es,
-  free_of [601; 604] (c06_check_nd c (combine es (map obs_of (run_trace es (init_sess c))))) = true.
-Proof. intros c es. unfold c06_check_nd. apply (c06_scan_nd_ok es (init_sess c)). Qed.
-
-(* ... hence c06_check itself never reports 601 / 604 on a trace none of whose events can drain *)
-Lemma c06_gate_never_fails_on_drain_free_traces : forall c es,
-  all_no_drain (init_obs c) (combine es (map obs_of (run_trace es (init_sess c)))) = true ->
+(* C06, trace level: for every configuration and every event list, clauses 601 and 604 of c06_check never fail on the
+   model's trace (no reachable-state invariant is needed: the statement holds from any state) *)
+Lemma c06_gate_never_fails : forall c es,
   free_of [601; 604] (c06_check c (combine es (map obs_of (run_trace es (init_sess c))))) = true.
-Proof.
-  intros c es H. unfold c06_check. rewrite <- (c06_scan_nd_eq _ c O (init_obs c) H). apply c06_gate_never_fails_without_drain.
-Qed.
+Proof. intros c es. unfold c06_check. apply (c06_scan_gate_ok es (init_sess c)). Qed.
 
-(* (b) the gate without the SendingTime clause (resend_ctx forced to true), on every event *)
+(* the gate without the SendingTime clause (resend_ctx forced to true), on every event: what c06_check demands of an
+   event that may have handled several frames, and a lower bound of what it demands of every event *)
 Fixpoint c06_scan_nc (c : cfg) (i : nat) (tr : list (event * obs)) : list failure :=
   match tr with
   | [] => []
@@ -838,7 +850,7 @@ Lemma c06_scan_nc_incl : forall tr c i prev x, In x (c06_scan_nc c i tr) -> In x
 Proof.
   induction tr as [|[e o] r IH]; intros c i prev x H; [exact H|].
   cbn [c06_scan_nc c06_scan] in *.
-  set (ctx := sh_is_resend (ob_st prev) || sh_is_resend (ob_st o)).
+  set (ctx := sh_is_resend (ob_st prev) || sh_is_resend (ob_st o) || negb (no_drain e prev o)).
   apply in_app_or in H as [H|H].
   - apply in_or_app. left.
     destruct (c06_gate_cbs c ctx (ob_cbs o)) eqn:Eg; [|destruct (c06_gate_cbs c true (ob_cbs o)); [destruct H | exact H]].
@@ -858,14 +870,12 @@ Proof.
   rewrite G1, G2. cbn [app]. rewrite <- (step_cfg (s_cfg s) s e eq_refl). apply IH.
 Qed.
 
-(* C06, trace level (b): on every trace and every event (drains included) every callback and every established session
-   belongs to a message with the session's BeginString, mirrored CompIDs and a successful validation *)
 Lemma c06_gate_noclock_never_fails : forall c es,
   c06_check_nc c (combine es (map obs_of (run_trace es (init_sess c)))) = [].
 Proof. intros c es. unfold c06_check_nc. apply (c06_scan_nc_ok es (init_sess c)). Qed.
 
 (* ====================================================================================================== *)
-(* ---------- the unconditional statement is false on the model: drain after disconnect ---------- *)
+(* ---------- regression examples ---------- *)
 Definition gt_cfg : cfg :=
   {| c_role := Acceptor; c_begin := 2; c_sender := B "S"; c_target := B "T"; c_reset_on_logon := false;
      c_reset_on_logout := false; c_reset_on_disconnect := false; c_refresh_on_logon := false; c_chunk := 0; c_hb := 30;
@@ -880,89 +890,66 @@ Definition gt_msg (t : bytes) (seq : Z) (stime : Z) : minput :=
 Definition gt_app (seq stime : Z) : minput := gt_msg (B "D") seq stime.   (* a NewOrderSingle *)
 Definition gt_trace (c : cfg) (es : list event) : list (event * obs) := combine es (map obs_of (run_trace es (init_sess c))).
 
-(* logged on; two frames wait in the inbound channel: number 5 (a gap: recovery starts) and number 2 with a SendingTime
-   1000 s off; the connection is lost: the drain processes number 5 in session (-> resend state), then number 2 in the
-   resend state, where the SendingTime check is skipped; the event starts in session and ends latent *)
+(* the former counterexamples (with resend_ctx computed from the shapes before / after the event only).  Logged on; two
+   frames wait in the inbound channel: number 5 (a gap: recovery starts) and number 2 with a SendingTime 1000 s off; the
+   connection is lost: handleDisconnectState drains the buffer, number 5 in session (-> resend state), then number 2 in the
+   resend state, where the SendingTime check is waived; the event starts in session and ends latent.  The event can handle
+   two frames (no_drain = false), so c06_scan demands the clock-free gate only: nothing is reported. *)
 Definition gt_es_601 : list event :=
-  [EConnect; EIncoming (gt_msg T_LOGON 1 0); EArrive (gt_msg (B "D") 5 0); EArrive (gt_msg (B "D") 2 1000); EInClosed].
+  [EConnect; EIncoming (gt_msg T_LOGON 1 0); EArrive (gt_app 5 0); EArrive (gt_app 2 1000); EInClosed].
 (* the same with a stale Logon as the second buffered frame: OnLogon for a Logon outside the window *)
 Definition gt_es_604 : list event :=
-  [EConnect; EIncoming (gt_msg T_LOGON 1 0); EArrive (gt_msg (B "D") 5 0); EArrive (gt_msg T_LOGON 2 1000); EInClosed].
+  [EConnect; EIncoming (gt_msg T_LOGON 1 0); EArrive (gt_app 5 0); EArrive (gt_msg T_LOGON 2 1000); EInClosed].
 
-Lemma c06_gate_601_refuted_ex : exists c es, c06_check c (gt_trace c es) = [(4%nat, 601)].
-Proof. exists gt_cfg, gt_es_601. vm_compute. reflexivity. Qed.
-Lemma c06_gate_604_refuted_ex : exists c es, c06_check c (gt_trace c es) = [(4%nat, 604)].
-Proof. exists gt_cfg, gt_es_604. vm_compute. reflexivity. Qed.
-Lemma c06_gate_refuted_ex :
-  ~ (forall c es, free_of [601; 604] (c06_check c (combine es (map obs_of (run_trace es (init_sess c))))) = true).
-Proof. intros H. specialize (H gt_cfg gt_es_601). vm_compute in H. discriminate. Qed.
+Definition gt_count_cbs (p : cb -> bool) (tr : list (event * obs)) : list nat :=
+  map (fun eo => length (filter p (ob_cbs (snd eo)))) tr.
+Definition gt_is_fromapp (x : cb) : bool := match x with CbFromApp _ _ _ _ => true | _ => false end.
+Definition gt_is_onlogon (x : cb) : bool := match x with CbOnLogon => true | _ => false end.
 
-(* non-vacuity: a drain-free trace with callbacks of all three kinds (Logon, application message, buffered Heartbeat) *)
-Definition gt_es_ok : list event :=
-  [EConnect; EIncoming (gt_msg T_LOGON 1 0); EIncoming (gt_msg (B "D") 2 0); EArrive (gt_msg T_HEARTBEAT 3 0); EDeliver;
-   EIncoming (gt_msg (B "D") 9 0); EIncoming (gt_msg (B "D") 4 5000); EInClosed].
-Lemma gt_es_ok_no_drain : all_no_drain (init_obs gt_cfg) (gt_trace gt_cfg gt_es_ok) = true.
-Proof. vm_compute. reflexivity. Qed.
-Lemma gt_es_ok_callbacks :
-  map (fun eo => length (ob_cbs (snd eo))) (gt_trace gt_cfg gt_es_ok) = [0; 3; 1; 0; 1; 1; 1; 1]%nat.
-Proof. vm_compute. reflexivity. Qed.
-(* on the refuting traces the restricted predicate and the clock-free predicate are silent, c06_check is not *)
-Lemma gt_es_601_variants :
-  c06_check_nd gt_cfg (gt_trace gt_cfg gt_es_601) = [] /\ c06_check_nc gt_cfg (gt_trace gt_cfg gt_es_601) = []
-  /\ all_no_drain (init_obs gt_cfg) (gt_trace gt_cfg gt_es_601) = false.
+Lemma gt_es_601_regression :
+  c06_check gt_cfg (gt_trace gt_cfg gt_es_601) = []
+  /\ gt_count_cbs gt_is_fromapp (gt_trace gt_cfg gt_es_601) = [0; 0; 0; 0; 1]%nat
+  /\ map (fun eo => no_drain (fst (fst eo)) (snd (fst eo)) (snd eo))
+         (combine (combine gt_es_601 (init_obs gt_cfg :: map snd (gt_trace gt_cfg gt_es_601))) (map snd (gt_trace gt_cfg gt_es_601)))
+     = [true; true; true; true; false].
+Proof. vm_compute. repeat split; reflexivity. Qed.
+Lemma gt_es_604_regression :
+  c06_check gt_cfg (gt_trace gt_cfg gt_es_604) = []
+  /\ gt_count_cbs gt_is_onlogon (gt_trace gt_cfg gt_es_604) = [0; 1; 0; 0; 1]%nat.
 Proof. vm_compute. repeat split; reflexivity. Qed.
 
-(* ====================================================================================================== *)
-(* ---------- c06_check itself: a 601 / 604 failure is always at an event that drained ---------- *)
-Fixpoint drain_events (i : nat) (prev : obs) (tr : list (event * obs)) : list nat :=
-  match tr with
-  | [] => []
-  | (e, o) :: r => (if no_drain e prev o then [] else [i]) ++ drain_events (S i) o r
-  end.
+(* a trace with callbacks of all three kinds (Logon, application message, buffered Heartbeat delivered, a gap, a stale
+   SendingTime while recovering, a disconnect), and one whose disconnect drains ONE buffered application message *)
+Definition gt_es_ok : list event :=
+  [EConnect; EIncoming (gt_msg T_LOGON 1 0); EIncoming (gt_app 2 0); EArrive (gt_msg T_HEARTBEAT 3 0); EDeliver;
+   EIncoming (gt_app 9 0); EIncoming (gt_app 4 5000); EInClosed].
+Definition gt_es_one : list event :=
+  [EConnect; EIncoming (gt_msg T_LOGON 1 0); EArrive (gt_app 2 0); EInClosed].
+Lemma gt_es_ok_callbacks :
+  map (fun eo => length (ob_cbs (snd eo))) (gt_trace gt_cfg gt_es_ok) = [0; 3; 1; 0; 1; 1; 1; 1]%nat
+  /\ gt_count_cbs gt_is_fromapp (gt_trace gt_cfg gt_es_one) = [0; 0; 0; 1]%nat.
+Proof. vm_compute. split; reflexivity. Qed.
 
-Ltac gate_in_single H :=
-  repeat match type of H with
-         | In _ (_ ++ _) => apply in_app_or in H; destruct H as [H|H]
-         | In _ (if ?x then _ else _) => destruct x
-         | In _ (match ?x with _ => _ end) => destruct x
-         | In _ [] => destruct H
-         | In _ [_] => destruct H as [H|[]]
-         end.
-
-Lemma c06_event_index c i prev e o f : In f (c06_event c i prev e o) -> fst f = i.
-Proof.
-  unfold c06_event. cbn [c06_scan]. rewrite !app_nil_r. intros H.
-  gate_in_single H; subst f; reflexivity.
-Qed.
-
-Lemma free_of_in codes l f : free_of codes l = true -> In f l -> existsb (Z.eqb (snd f)) codes = false.
-Proof.
-  unfold free_of. intros H Hin. rewrite forallb_forall in H. specialize (H f Hin). apply negb_true_iff in H. exact H.
-Qed.
-
-Lemma c06_scan_gate_only_on_drains : forall es s i f,
-  In f (c06_scan (s_cfg s) i (obs_of s) (combine es (map obs_of (run_trace es s)))) ->
-  existsb (Z.eqb (snd f)) [601; 604] = true ->
-  In (fst f) (drain_events i (obs_of s) (combine es (map obs_of (run_trace es s)))).
-Proof.
-  induction es as [|e r IH]; intros s i f Hin Hcode; cbn [run_trace map combine] in *; [destruct Hin|].
-  rewrite c06_scan_cons in Hin. cbn [drain_events]. apply in_or_app. apply in_app_or in Hin as [Hin|Hin].
-  - left. destruct (no_drain e (obs_of s) (obs_of (step s e))) eqn:Hnd.
-    + pose proof (free_of_in _ _ f (c06_event_nodrain_ok i s e Hnd) Hin) as Hf. rewrite Hf in Hcode. discriminate.
-    + left. symmetry. eapply c06_event_index; exact Hin.
-  - right. rewrite <- (step_cfg (s_cfg s) s e eq_refl) in Hin. apply IH; assumption.
-Qed.
-
-(* C06, trace level (a'), about c06_check itself: on every trace, every 601 / 604 failure c06_check reports is at the
-   index of an event that drained (started with frames buffered and ended disconnected) *)
-Lemma c06_gate_fails_only_on_drains : forall c es f,
-  In f (c06_check c (combine es (map obs_of (run_trace es (init_sess c))))) ->
-  existsb (Z.eqb (snd f)) [601; 604] = true ->
-  In (fst f) (drain_events O (init_obs c) (combine es (map obs_of (run_trace es (init_sess c))))).
-Proof. intros c es f. unfold c06_check. apply (c06_scan_gate_only_on_drains es (init_sess c)). Qed.
-
-Lemma gt_es_601_drains : drain_events O (init_obs gt_cfg) (gt_trace gt_cfg gt_es_601) = [4%nat].
-Proof. vm_compute. reflexivity. Qed.
+(* the clauses still bite.  (1) A single directly processed message (no_drain = true): an observation in which the stale
+   application message 2 was handed over in session is reported (601).  (2) On the draining event of gt_es_601 an
+   observation with a callback for a message with the wrong SenderCompID is reported although the clock is waived there. *)
+Definition gt_obs_with (o : obs) (cbs : list cb) : obs :=
+  {| ob_cbs := cbs; ob_wire := ob_wire o; ob_closed := ob_closed o; ob_snd := ob_snd o; ob_tgt := ob_tgt o; ob_st := ob_st o;
+     ob_tosend := ob_tosend o; ob_stopped := ob_stopped o; ob_hb := ob_hb o; ob_inbuf := ob_inbuf o |}.
+Definition gt_in_session : obs := obs_of (fold_left step [EConnect; EIncoming (gt_msg T_LOGON 1 0)] (init_sess gt_cfg)).
+Definition gt_bad_sender (m : minput) : mfacts :=
+  {| mf_begin := mi_begin m; mf_sender := Some (B "X"); mf_target := mi_target m; mf_stime := mi_stime m;
+     mf_valid := mi_valid m; mf_id := None |}.
+Lemma gt_clauses_bite :
+  filter (fun f => snd f =? 601) (c06_scan gt_cfg 0 gt_in_session
+    [(EIncoming (gt_app 2 1000), gt_obs_with gt_in_session [CbFromApp (FVal 2) 2 VAccept (facts_of (gt_app 2 1000))])]) = [(0%nat, 601)]
+  /\ (let tr := gt_trace gt_cfg gt_es_601 in
+      let prev := nth 3 (map snd tr) gt_in_session in
+      let o := nth 4 (map snd tr) gt_in_session in
+      no_drain EInClosed prev o = false
+      /\ filter (fun f => snd f =? 601)
+            (c06_scan gt_cfg 4 prev [(EInClosed, gt_obs_with o [CbFromApp (FVal 2) 2 VAccept (gt_bad_sender (gt_app 2 0))])]) = [(4%nat, 601)]).
+Proof. vm_compute. repeat split; reflexivity. Qed.
 
 (* the per-message statement with the block of new callbacks made explicit *)
 Lemma gate_per_message : forall s m s1 next,
